@@ -8,6 +8,48 @@ fn verif_replay() {
     let path = match std::env::var("VERIF_REPLAY") { Ok(p) => p, Err(_) => return };
     let _case: serde_json::Value = serde_json::from_str(&std::fs::read_to_string(path).unwrap()).unwrap();
     let rt = tokio::runtime::Builder::new_current_thread().enable_all().build().unwrap();
+    if _case["driver"].as_str() == Some("reader_after_icmp_error") {
+        // the peer of a UDP session socket goes away for a moment: what the session sends meanwhile comes back as ICMP
+        // port-unreachable and is parked on the socket as a pending error.  The peer returns and sends a datagram: the next receive
+        // reports the parked error FIRST (ECONNREFUSED), the datagram after it.  Does the session's frame reader hand out a frame
+        // for the error?
+        let out = rt.block_on(async move {
+            use crate::common::frames::Frame;
+            // control experiment with a plain socket: does this machine behave that way at all?
+            let raw = tokio::net::UdpSocket::bind("127.0.0.1:0").await.unwrap();
+            let raw_addr = raw.local_addr().unwrap();
+            let peer_addr = { let p = std::net::UdpSocket::bind("127.0.0.1:0").unwrap(); p.local_addr().unwrap() };
+            raw.connect(peer_addr).await.unwrap();
+            let _ = raw.send(b"x").await;
+            tokio::time::sleep(std::time::Duration::from_millis(100)).await;
+            let back = std::net::UdpSocket::bind(peer_addr).unwrap();
+            let _ = back.send_to(b"y", raw_addr);
+            let mut b = [0u8; 16];
+            let control = tokio::time::timeout(std::time::Duration::from_millis(500), raw.recv(&mut b)).await;
+            let error_seen = matches!(control, Ok(Err(_)));
+            drop(back);
+            drop(raw);
+            // the same with the real session reader / writer
+            let local = { let p = std::net::UdpSocket::bind("127.0.0.1:0").unwrap(); p.local_addr().unwrap() };
+            let peer_addr = { let p = std::net::UdpSocket::bind("127.0.0.1:0").unwrap(); p.local_addr().unwrap() };
+            let (_tx, rx) = tokio::sync::mpsc::channel::<Frame>(1);
+            let (mut rd, mut wr) = match crate::common::udp::setup_udp_session("127.0.0.1:9".parse().unwrap(), local, peer_addr, rx, false) {
+                Ok(x) => x, Err(e) => return serde_json::json!({"panicked": false, "setup_failed": e.to_string()}) };
+            let mut f = Frame::new();
+            f.body = bytes::Bytes::from_static(b"x");
+            let _ = wr.write(f).await;
+            tokio::time::sleep(std::time::Duration::from_millis(100)).await;
+            let back = std::net::UdpSocket::bind(peer_addr).unwrap();
+            let _ = back.send_to(b"y", local);
+            let got = tokio::time::timeout(std::time::Duration::from_millis(500), rd.read()).await;
+            // a frame that is not the datagram the peer sent: the error came out as a datagram
+            let handed = matches!(&got, Ok(Ok(Some(f))) if f.body().as_ref() != b"y");
+            serde_json::json!({"panicked": false, "error_seen_by_socket": error_seen, "frame_handed_out": handed,
+                               "detail": format!("{:?}", got.map(|r| r.map(|o| o.map(|f| f.body().to_vec())).map_err(|e| e.to_string())))})
+        });
+        println!("VERIF-OUTCOME {}", out);
+        return;
+    }
     let out = rt.block_on(async move {
         // a free loopback port for the listener
         let probe = std::net::UdpSocket::bind("127.0.0.1:0").unwrap();
